@@ -52,3 +52,18 @@ Proof.
   intros H1 H2. unfold u32_sub. replace (a + 4294967296 - c) with (a - c + 1 * 4294967296) by lia.
   rewrite N.mod_add by lia. apply N.mod_small. lia.
 Qed.
+
+(* the pieces a released DATA frame is written in fit the max frame size recorded at release *)
+Lemma wdata_pieces_fit : forall fuel m id d es, 0 < m -> (length d <= fuel)%nat ->
+  Forall (fun w => payload_len w <= m) (wdata_pieces fuel m id d es).
+Proof.
+  induction fuel as [|k IH]; intros m id d es Hm Hl; cbn [wdata_pieces].
+  - destruct d; [|cbn in Hl; lia]. repeat constructor. cbn. lia.
+  - destruct ((0 <? m) && (m <? len d)) eqn:E.
+    + apply andb_true_iff in E as [_ E]. apply N.ltb_lt in E.
+      constructor; [cbn [payload_len]; apply len_takeN_le|].
+      apply IH; [exact Hm|]. unfold dropN. rewrite skipn_length. unfold len in E. lia.
+    + repeat constructor. cbn [payload_len]. apply andb_false_iff in E as [E|E].
+      * apply N.ltb_ge in E. lia.
+      * apply N.ltb_ge in E. exact E.
+Qed.
